@@ -3,13 +3,14 @@ package c20
 import (
 	"reflect"
 	"sort"
+	"sync"
 
 	"verif/hooks"
 )
 
 // Canonical hash of all package-level state of package astisub (frozen-globals invariant).
 // Maps are hashed order-insensitively, pointers by reachability; regexp.Regexp, strings.Replacer,
-// sync.* and func values are opaque leaves (documented thread-safe stdlib objects with lazily built
+// sync.* (except sync.Map, hashed through Range) and func values are opaque leaves (documented thread-safe stdlib objects with lazily built
 // internals; func values cannot be compared).
 
 var opaque = map[string]bool{
@@ -69,6 +70,17 @@ func hashValue(v reflect.Value, seen map[uintptr]bool, depth int) uint64 {
 		return mix(mix(41, hstr(e.Type().String())), hashValue(e, seen, depth+1))
 	case reflect.Struct:
 		t := v.Type()
+		if t.String() == "sync.Map" && v.CanAddr() && v.Addr().CanInterface() {
+			// a package-level sync.Map is state like any other map: hashed through its own Range, order-insensitively
+			var sum uint64
+			n := 0
+			v.Addr().Interface().(*sync.Map).Range(func(k, val interface{}) bool {
+				sum += mix(hashValue(reflect.ValueOf(k), seen, depth+1), hashValue(reflect.ValueOf(val), seen, depth+1))
+				n++
+				return true
+			})
+			return mix(mix(89, uint64(n)), sum)
+		}
 		if opaque[t.String()] {
 			return 43
 		}
